@@ -64,6 +64,12 @@ CHECKS.update({
             'timers in virtual time; histories of reads/queued writes with duplicated/delayed/error replies and link drops after every k-th '
             'packet (enumerated for fixed histories) are compared with a memory image model, exactly-one notification bookkeeping and a probe.',
             'Device model and network policy are mine; interleavings are explored at synchronisation-operation granularity; bounded virtual horizon.'),
+    'C03': ('exploration', 'DESIGN.md 3/C03', 'dsched+simcf',
+            'Hypothesis-generated device tables / protocol versions / reply delays (natural duplicates and stale replies) / schedules; real connection under the deterministic scheduler; entry-by-entry comparison inside the connected callback',
+            'Tables of every size class (0, small, 254..257, 300), type code and name length are served by a simulated device over links with '
+            'delays around the retry timer, both protocol generations, cold and warm cache; the tables the library holds when `connected` fires '
+            'are compared entry for entry with the device spec and the three lookup paths are cross-checked.',
+            'Duplicates are limited to what the protocol can produce; device model is mine.'),
 })
 
 ALL = ['C%02d' % i for i in range(1, 21)]
